@@ -16,7 +16,11 @@ CONTENTS = [b"", b"x", b"hello\n", b"no newline", b"\x00\x01\xff\xfe", b"$NetBSD
             b"a\n$$NetBSD$$\nb\n", b"$N$NetBSD\nk\n", b"$5 and $NetBSD: y $\nkeep\n",
             # the marker straddling the first / second 8192-byte refill of the patch reader's buffer
             b"a" * (8192 - 3 - 3) + b"\n+ $NetBSD: x $ tail\nkeep\n", b"a" * (8192 - 3 - 6) + b"\n+ $NetBSD: x $ tail\nkeep\n",
-            b"a" * (16384 - 3 - 1) + b"\n+ $NetBSD: x $ tail\nkeep\n", b"a" * (8192 - 3) + b"\n+ $NetBSD$\n"]
+            b"a" * (16384 - 3 - 1) + b"\n+ $NetBSD: x $ tail\nkeep\n", b"a" * (8192 - 3) + b"\n+ $NetBSD$\n",
+            # ONE line longer than any reader's block (8 KiB, 64 KiB) with the marker at its start, at its end, in the middle:
+            # the whole line is left out, however it is read; and an unterminated last line of exactly one / two blocks
+            b"+ $NetBSD: x $ " + b"x" * 9000 + b"\nkeep\n", b"+ " + b"x" * 9000 + b" $NetBSD$\nkeep\n", b"keep\n+ " + b"y" * 8190 + b"$NetBSD$" + b"z" * 8190 + b"\nlast",
+            b"+ $NetBSD$ " + b"x" * 70000 + b"\nkeep\n", b"+ " + b"x" * 70000 + b" $NetBSD$\nkeep\n", b"l1\n" + b"q" * (8192 - 3), b"q" * 8192, b"q" * 16384, b"l1\n" + b"q" * 65536]
 
 
 def model_post(c, o):
@@ -45,7 +49,11 @@ def generate(rng, tier):
     cases = []
     for _ in range(n):
         names = rng.sample([b"foo-1.0.tar.gz", b"dir/foo-1.0.tar.gz", b"other/dir/foo-1.0.tar.gz", b"bar.tgz", b"sub/bar.tgz", b"patch-aa", b"patch-ab",
-                            b"go/v1.zip", b"rust/v1.zip", b"v1.zip", b"x/patch-aa", b"caf\xc3\xa0.tgz", b"l\xe9.tgz"], rng.randint(1, 4))
+                            b"go/v1.zip", b"rust/v1.zip", b"v1.zip", b"x/patch-aa", b"caf\xc3\xa0.tgz", b"l\xe9.tgz",
+                            # recorded names with many directory components (16 / 17 / 33 / 65 / 300)
+                            b"/".join(b"d%d" % i for i in range(15)) + b"/deep-1.0.tar.gz", b"/".join(b"d%d" % i for i in range(16)) + b"/deep-1.0.tar.gz",
+                            b"/".join(b"e%d" % i for i in range(32)) + b"/deep-2.0.tar.gz", b"/".join(b"f%d" % i for i in range(64)) + b"/patch-deep",
+                            b"/".join(b"g" for i in range(299)) + b"/deep-3.0.tgz"], rng.randint(1, 4))
         files = {}
         text = b"$NetBSD$\n\n"
         for nm in names:
